@@ -98,9 +98,14 @@ def tables_and_cursor(rep, idx, spec, table, obj, named):
     R, X = c.norm(ins[0][2][0]), c.norm(ins[0][2][1])
     rep.check(X == ('name', obj), "C02.4", site, f"the {obj} itself is inserted", f"inserted object is {ir.show(X)}")
     # provenance of R: the value returned by _compute_addr_range
-    rep.check(R[0] == 'call' and R[1] == c.parse("self._compute_addr_range"), "C02.5", site,
-              "the inserted range is exactly what _compute_addr_range() returned (validated range)",
-              f"inserted range is {ir.show(R)[:100]}")
+    if helper_owns_placement(idx):
+        rep.check(R[0] == 'call' and R[1] == c.parse("self._compute_addr_range"), "C02.5", site,
+                  "the inserted range is exactly what _compute_addr_range() returned (validated range)",
+                  f"inserted range is {ir.show(R)[:100]}")
+    else:
+        # the placement helper was split / merged: the range is validated in the flattened view (compute_range)
+        rep.form(R[0] == 'call' and R[1] == ('name', 'range'), "C02.5", site, "the inserted range is the validated range (flattened view)",
+                 f"inserted range is {ir.show(R)[:100]}")
     st = c.stores.get(ir.show(c.parse(f"self.{table}[id({obj})]")))
     ok = st is not None and st[0][0] == 'tuple' and len(st[0][1]) == 3 and st[0][1][0] == ('name', obj) and st[0][1][2] == R
     wrong = None
@@ -573,8 +578,12 @@ def legal_placements(rep, idx, rule):
         if span and a[0] == 'cmp' and a[1] == '<' and a[3] == ('const', 0):
             return True
         return False
-    glue.arith_refusal_atoms(rep, rule, idx, "MemoryMap._compute_addr_range", ["addr % (1 << self.alignment) != 0"], allow_if=bounds,
-                             what="an explicit address is only required to be a multiple of the map's own alignment; sizes and bounds as documented")
+    try:
+        idx.find_func("MemoryMap._compute_addr_range")
+        glue.arith_refusal_atoms(rep, rule, idx, "MemoryMap._compute_addr_range", ["addr % (1 << self.alignment) != 0"], allow_if=bounds,
+                                 what="an explicit address is only required to be a multiple of the map's own alignment; sizes and bounds as documented")
+    except Exception:
+        pass                                            # the helper is gone: its refusals are read where they were opened (below)
     glue.arith_refusal_atoms(rep, rule, idx, "MemoryMap.add_resource", ["addr % (1 << self.alignment) != 0"], allow_if=bounds,
                              what="add_resource() adds no arithmetic refusal of its own")
     glue.arith_refusal_atoms(rep, rule, idx, "MemoryMap.add_window",
